@@ -807,6 +807,18 @@ class Query:
             return None
         q = g.rng.choice(self.Q)
         n = g.pick_parent(own) if q not in ("ancestry", "get_instance") else g.rng.choice(own)
+        lt = getattr(g.w, "last_touch", None)
+        if lt is not None and lt[0] == g.sess and lt[1] in own and lt[2] in own and g.rng.random() < 0.3:
+            # look again at what was just edited (and at what was looked at before the edit)
+            n = lt[1]
+            q = g.rng.choice(["child_index", "child_index", "find_child", "find_all_children", "find_descendant",
+                              "path_single", "ancestry"])
+            if q == "ancestry":
+                n = lt[2]
+            if q == "child_index":
+                ch = [c for c in s.cells[n][CH] if isinstance(c, int)]
+                pick = lt[2] if (lt[2] in ch and g.rng.random() < 0.6) else (g.rng.choice(ch) if ch else lt[2])
+                return {"k": "query", "s": g.sess, "q": q, "n": g.sel("own", n), "c": g.sel("own", pick)}
         op = {"k": "query", "s": g.sess, "q": q, "n": g.sel("own", n)}
         if q in ("find_child", "find_all_children", "find_descendant", "find_all_descendants"):
             op["name"] = g.name_below(n)
